@@ -91,6 +91,13 @@ class Prop:
     def extra_coverage(self, tier):
         return {}
 
+    machine_share = 0.25  # stateful machine runs per shard, as a share of the shard's example budget
+    machine_steps = {"quick": 8, "thorough": 16}
+
+    def machine(self, tier, collector):
+        """optional: a hypothesis.stateful.RuleBasedStateMachine class for history properties"""
+        return None
+
     def prepare(self, tier):
         """once, in the parent, before forking"""
 
@@ -130,7 +137,9 @@ class _Collector:
         self.t0 = time.time()
 
     def body(self, case):
-        out = self.prop.evaluate(case)
+        return self.record(case, self.prop.evaluate(case))
+
+    def record(self, case, out):
         if out.excluded:
             self.excluded[out.excluded] += 1
             return out
@@ -193,6 +202,21 @@ def _hyp_run(prop, tier, seed, n, body, shrink=False):
     t()
 
 
+def _machine_run(machine, prop, tier, seed, n):
+    """Hypothesis stateful mode (RuleBasedStateMachine): rules are the operations, invariants run after every step. The machine
+    records violations in the collector (as replayable history cases) instead of raising, so the search goes on (collect, then shrink)."""
+    import hypothesis
+    from hypothesis import HealthCheck, Phase, Verbosity, settings
+    from hypothesis.stateful import run_state_machine_as_test
+
+    run_state_machine_as_test(
+        hypothesis.seed(seed + 500)(machine),
+        settings=settings(max_examples=n, stateful_step_count=prop.machine_steps[tier], database=None, deadline=None, derandomize=False,
+                          report_multiple_bugs=False, suppress_health_check=list(HealthCheck), phases=[Phase.generate], verbosity=Verbosity.quiet,
+                          print_blob=False),
+    )
+
+
 def _shard(args):
     pid, tier, seed, idx, nshards, n_examples = args
     try:
@@ -205,6 +229,9 @@ def _shard(args):
                 col.body(case)
         if n_examples > 0:
             _hyp_run(prop, tier, seed, n_examples, col.body)
+        machine = prop.machine(tier, col) if n_examples > 0 else None
+        if machine is not None:
+            _machine_run(machine, prop, tier, seed, max(1, int(n_examples * prop.machine_share)))
         res = col.result()
         res["shard"] = idx
         res["seed"] = seed
